@@ -233,7 +233,67 @@ def c16(chk):
                     if d > slack * (1 + abs(float(np.atleast_1d(a)[0]))):
                         chk.violation("RepresentationsDisagree", {"backend": cfg, "method": k.split(":")[0]},
                                       {"history": json.loads(hk), "query": k, "gaussian": a, cfg: b, "slack": slack})
+    post_processing(chk)
     chk.exhaustive = True
+
+
+def _post_one(it):
+    """worker: strawberryfields.utils.post_processing on one sample matrix / selection from MC_Post"""
+    try:
+        from strawberryfields.utils import post_processing as pp
+        smp = np.array(it["samples"])
+        sel = [m - 1 for m in it["sel"]]
+        out = {"ok": True}
+        _call(out, "expectation", lambda: float(pp.samples_expectation(smp, sel)))
+        _call(out, "variance", lambda: float(pp.samples_variance(smp, sel)))
+        if len(sel) == smp.shape[1] and sel == sorted(sel):
+            _call(out, "expectation_default", lambda: float(pp.samples_expectation(smp)))
+            _call(out, "probs", lambda: np.asarray(pp.all_fock_probs_pnr(smp)).tolist())
+        # invalid selections must be refused
+        for name, bad in (("out_of_range", [smp.shape[1]]), ("negative", [-1]), ("empty", []), ("nested", [[0]]), ("fractional", [0.5])):
+            _call(out, "bad:" + name, lambda: float(pp.samples_expectation(smp, bad)))
+        return out
+    except Exception as e:  # noqa
+        return {"ok": False, "err": type(e).__name__, "msg": str(e)[:300], "tb": traceback.format_exc()[-800:]}
+
+
+def post_processing(chk):
+    tier = chk.tier
+    r = chk.tlc("MC_Post", constants={"MaxShots": 2 if tier == "quick" else 3, "NModes": 2 if tier == "quick" else 3, "MaxN": 2, "EMIT": True},
+                invariants=["ProbsSumToOne", "ExpectationFromProbs", "VarianceNonNegative", "OrderIrrelevant", "EmitInv"])
+    items = r.json
+    if len(items) > 20000:
+        items = items[chk.seed % 7::7]
+    res = common.pmap(_post_one, items, chunksize=64)
+    for it, o in zip(items, res):
+        chk.traces += 1
+        key = json.dumps([it["samples"], it["sel"]])
+        chk.count(key=("post", key), nontrivial=any(any(r_) for r_ in it["samples"]))
+        f0 = {"backend": "post_processing"}
+        det = {"samples": it["samples"], "modes": [m - 1 for m in it["sel"]]}
+        if not o["ok"]:
+            chk.violation("UnexpectedError", dict(f0, error=o["err"]), dict(det, msg=o["msg"], tb=o.get("tb")))
+            continue
+        for q, want in (("expectation", F(it["expectation"])), ("variance", F(it["variance"])), ("expectation_default", F(it["expectation"]))):
+            g = o.get(q)
+            if g is None:
+                continue
+            if isinstance(g, dict) or abs(g - want) > 1e-12 * (1 + abs(want)):
+                chk.violation("ObservableWrong", dict(f0, method="samples_" + q.split("_")[0], tuple_len=len(it["sel"]), sorted=it["sel"] == sorted(it["sel"])),
+                              dict(det, query=q, got=g, want=want))
+        if "probs" in o:
+            g = o["probs"]
+            D = it["maxentry"] + 1
+            want = np.zeros([D] * len(it["samples"][0]))
+            shots = len(it["samples"])
+            for pat, cnt in it["probs"]:
+                want[tuple(pat)] = cnt / shots
+            if isinstance(g, dict) or np.asarray(g).shape != want.shape or float(np.max(np.abs(np.asarray(g) - want))) > 1e-12:
+                chk.violation("ObservableWrong", dict(f0, method="all_fock_probs_pnr", tuple_len=len(it["sel"]), sorted=True), dict(det, got=g, want=want.tolist()))
+        for k, v in o.items():
+            if k.startswith("bad:") and not (isinstance(v, dict) and v["raised"] in ("ValueError", "TypeError")):
+                chk.violation("InvalidSelectionAccepted", dict(f0, selection=k[4:]), dict(det, got=v))
+    chk.notes["post_processing_cases"] = len(items)
 
 
 def judge(chk, cfg, cutoff, it, o):
